@@ -208,11 +208,11 @@ def _explore(world, c, params, tag, budget, rep):
         try:
             _run_path(world, c, params, tag, it, path, rep, first)
         except Unsupported as e:
-            msg = 'unsupported: %s' % e
+            msg = ('unsupported: %s' % e)[:400]
             if msg not in rep.undecided:
                 rep.undecided.append(msg)
         except TypeErrorSym as e:
-            msg = 'encoder typing: %s' % e
+            msg = ('encoder typing: %s' % e)[:400]
             if msg not in rep.undecided:
                 rep.undecided.append(msg)
         first = False
